@@ -299,6 +299,33 @@ pub fn run(a: &Args) {
                                 "back": {"groups": groups_json(&back)}}), json!({}))),
                             Err(e) => evs.push((json!({"what": "attrs", "ok": false, "msg": {}, "back": {}, "error": e}), json!({}))),
                         }
+                        // header alone, every group alone, every attribute alone
+                        let ht = serde_json::to_string(req.header()).map_err(|e| e.to_string());
+                        match ht.and_then(|t| serde_json::from_str::<IppHeader>(&t).map_err(|e| e.to_string())) {
+                            Ok(back) => evs.push((json!({"what": "value", "ok": true, "msg": header_json(req.header()), "back": header_json(&back)}), json!({}))),
+                            Err(e) => evs.push((json!({"what": "value", "ok": false, "msg": header_json(req.header()), "back": {}, "error": e}), json!({}))),
+                        }
+                        for g in req.attributes().groups() {
+                            let mut one = IppAttributes::new();
+                            one.groups_mut().push(g.clone());
+                            let gt = serde_json::to_string(g).map_err(|e| e.to_string());
+                            match gt.and_then(|t| serde_json::from_str::<IppAttributeGroup>(&t).map_err(|e| e.to_string())) {
+                                Ok(back) => {
+                                    let mut b1 = IppAttributes::new();
+                                    b1.groups_mut().push(back);
+                                    evs.push((json!({"what": "attrs", "ok": true, "msg": {"groups": groups_json(&one)}, "back": {"groups": groups_json(&b1)}}), json!({})));
+                                }
+                                Err(e) => evs.push((json!({"what": "attrs", "ok": false, "msg": {}, "back": {}, "error": e}), json!({}))),
+                            }
+                            for a in g.attributes().values() {
+                                let at = serde_json::to_string(a).map_err(|e| e.to_string());
+                                match at.and_then(|t| serde_json::from_str::<IppAttribute>(&t).map_err(|e| e.to_string())) {
+                                    Ok(back) => evs.push((json!({"what": "value", "ok": true, "msg": {"n": hexs(a.name().as_bytes()), "v": ipp_json(a.value())},
+                                        "back": {"n": hexs(back.name().as_bytes()), "v": ipp_json(back.value())}}), json!({}))),
+                                    Err(e) => evs.push((json!({"what": "value", "ok": false, "msg": {}, "back": {}, "error": e}), json!({}))),
+                                }
+                            }
+                        }
                         // every value alone
                         for g in req.attributes().groups() {
                             for a in g.attributes().values() {
